@@ -198,6 +198,8 @@ class Exec:
             import time
             if self.t0 is None: self.t0 = time.time()
             elif time.time() - self.t0 > self.maxwall: raise Budget()
+            from . import core as _core
+            if _core.UNIT_DEADLINE and time.time() > _core.UNIT_DEADLINE: raise Budget()      # the whole unit is out of time: the rest is listed as not analysed
 
     def truth(self, v, st):
         """yield (bool, state) for a value used as condition"""
